@@ -76,13 +76,20 @@ def w4_stream(rng, k, K):
                "trains": [[ts + i * T / 8 for i in a], [ts + i * T / 8 for i in b]]}
 
 
+def as_user_number(rng, v):
+    """whole-valued keyword arguments are sometimes passed as python ints (users write max_tau=2, MRTS=10)"""
+    if isinstance(v, float) and v.is_integer() and abs(v) < 1e9 and rng.random() < 0.5:
+        return int(v)
+    return v
+
+
 def kw_isi(rng, case):
     T = case["te"] - case["ts"]
     if case["dyadic"]:
         m = rng.choice(gen.mrts_choices(T, case["step"]))
     else:
         m = rng.choice([0, 0, T * 10 ** rng.uniform(-6, 1), gen.min_isi(case["trains"], case["ts"], case["te"]) / 2])
-    return {"MRTS": m}
+    return {"MRTS": as_user_number(rng, m)}
 
 
 def kw_spike(rng, case):
@@ -95,7 +102,7 @@ def kw_sync(rng, case):
     T = case["te"] - case["ts"]
     kw = kw_isi(rng, case)
     if case["dyadic"]:
-        kw["max_tau"] = rng.choice(gen.maxtau_choices(T, case["step"]))
+        kw["max_tau"] = as_user_number(rng, rng.choice(gen.maxtau_choices(T, case["step"])))
     else:
         kw["max_tau"] = rng.choice([None, None, 0, T * 10 ** rng.uniform(-5, 0.5)])
     return kw
@@ -160,6 +167,10 @@ def pair_classes(ctx, case):
     if "max_tau" in kw:
         mt = kw["max_tau"]
         ctx.count("max_tau_none" if mt is None else "max_tau_zero" if mt == 0 else "max_tau_positive")
+        if isinstance(mt, int) and mt > 0:
+            ctx.count("max_tau_python_int")
+    if isinstance(kw.get("MRTS"), int) and kw["MRTS"] > 0:
+        ctx.count("mrts_python_int")
     w = gen.word_of(tr, ts, te) + "|" + repr(sorted((k, gen.size_class(0) if v is None else v) for k, v in kw.items()
                                                     if k in ("RI",)))
     ctx.word(w + "|" + mrts_regime(case), gen.nontrivial_pair(tr))
